@@ -2,7 +2,7 @@
 CONSTANTS
   MaxSize = 4
   Workers = {1, 2}
-  MaxErrors = 2
+  MaxErrors = 1
   ErrKinds <- OneErr
   KeepHist = FALSE
   Configs <- AllConfigs
